@@ -501,6 +501,13 @@ class ExprMixin:
             f = base.value.find_method(name)
             if f is not None:
                 return Const(('unbound', f))
+            for c in base.value.mro():
+                # NAME = 'literal' in the class body: the attribute of a class passed around as a value is that literal
+                val = c.class_attrs.get(name)
+                if val is not None:
+                    if isinstance(val, ast.Constant) and isinstance(val.value, (str, int, float, bool)):
+                        return self.e_Constant(val, None)
+                    break
             return app('classattr', P(base), Const(name))
         if isinstance(base, Slice):
             if name in ('start', 'stop', 'step'):
